@@ -235,6 +235,60 @@ def handle (st : State) (cmd : String) (inp obs : List String) : State × String
     let sched := if bits = "-" then [] else parseBits bits
     let r := toString (numberOfScheduledActions sched)
     (st, if obs = [r] then "ok" else s!"MISMATCH count model={r}")
+  -- Config::create_schedules: all calendar settings => the schedules the accessors return
+  | "cfgsched", [u, n, s1, s2, s3, e1, e2, e3, ss, se, outF, outN, um, mF, mN, ul, lM, us, sM, sD, ur, rF, rN, uq, qF, qN, wS] =>
+    let un (x : String) := if x = "<empty>" then "" else x
+    match unit? u, parseNat? n, parseInts? [s1, s2, s3, e1, e2, e3, ss, se, lM, sM, sD], (parseNat? outN, parseNat? mN, parseNat? rN, parseNat? qN, parseNat? wS) with
+    | some u, some n, some [s1, s2, s3, e1, e2, e3, ss, se, lM, sM, sD], (some outN, some mN, some rN, some qN, some wS) =>
+      let c : CalCfg := {
+        start := ⟨s1, s2, s3⟩, end_ := ⟨e1, e2, e3⟩, unit := u, n := n, seasonStart := ss, seasonEnd := se,
+        outFreq := un outF, outN := outN, useMortality := um == "1", mortFreq := un mF, mortN := mN,
+        useLethal := ul == "1", lethalMonth := lM, useSurvival := us == "1", survMonth := sM, survDay := sD,
+        useRates := ur == "1", ratesFreq := un rF, ratesN := rN, useQuarantine := uq == "1", quarFreq := un qF, quarN := qN,
+        weatherSize := wS }
+      let showOpt (o : Option (List Bool)) : String := match o with | none => "off" | some l => (if l.isEmpty then "-" else showBits l)
+      let r := match createSchedules c with
+        | .error e => errTok e
+        | .ok sch =>
+          let w := match sch.weather with | none => "off" | some l => ",".intercalate (l.map toString)
+          s!"ok {sch.steps.length} spread={showBits sch.spread} output={if sch.output.isEmpty then "-" else showBits sch.output} mortality={showOpt sch.mortality} lethal={showOpt sch.lethal} survival={showOpt sch.survival} rates={showOpt sch.rates} quarantine={showOpt sch.quarantine} weather={w}"
+      let o := " ".intercalate obs
+      -- C08 on the implementation's own output: the schedule each accessor returns must be the
+      -- definitional schedule of the configured frequency / date, evaluated by date enumeration on
+      -- the steps (short steps only) resp. by index arithmetic
+      let getO (key : String) : Option String := obs.findSome? fun t =>
+        if t.startsWith (key ++ "=") then some (t.drop (key.length + 1)).toString else none
+      let specOf (steps : List Step) (freq : String) (fn : Nat) : Option (List Bool) :=
+        if freq = "year" ∨ freq = "yearly" then some (steps.map firesSpecEndOfYear)
+        else if freq = "month" ∨ freq = "monthly" then some (steps.map firesSpecMonthly)
+        else if freq = "final_step" then some (scheduleEndOfSimulation steps)
+        else if freq = "every_n_steps" ∧ fn > 0 then some (scheduleNSteps steps fn)
+        else if freq = "every_step" ∨ freq = "time_step" then some (scheduleNSteps steps 1)
+        else if freq = "" then some (List.replicate steps.length false)
+        else none
+      let propFail : Option String :=
+        match Scheduler.make c.start c.end_ c.unit c.n, obs.head? with
+        | .ok sc, some "ok" =>
+          if !(sc.steps.all shortStep) then none else
+          let chk (key : String) (use : Bool) (spec : Option (List Bool)) : Option String :=
+            match getO key, spec with
+            | some v, some sp =>
+              if !use then (if v == "off" then none else some s!"PROPFAIL C08 config_wiring {key} expected=off")
+              else if v == "off" then some s!"PROPFAIL C08 config_wiring {key} missing"
+              else if parseBits (if v == "-" then "" else v) != sp then some s!"PROPFAIL C08 config_wiring {key} observed={v} expected={showBits sp}"
+              else none
+            | _, _ => none
+          (chk "output" true (specOf sc.steps c.outFreq c.outN)).orElse fun _ =>
+          (chk "mortality" c.useMortality (specOf sc.steps c.mortFreq c.mortN)).orElse fun _ =>
+          (chk "lethal" c.useLethal (some (sc.steps.map (firesSpecYearly c.lethalMonth 1)))).orElse fun _ =>
+          (chk "survival" c.useSurvival (some (sc.steps.map (firesSpecYearly c.survMonth c.survDay)))).orElse fun _ =>
+          (chk "rates" c.useRates (specOf sc.steps c.ratesFreq c.ratesN)).orElse fun _ =>
+          (chk "quarantine" c.useQuarantine (specOf sc.steps c.quarFreq c.quarN))
+        | _, _ => none
+      match propFail with
+      | some v => (st, v)
+      | none => (st, if o = r then "ok" else s!"MISMATCH cfgsched model={r}")
+    | _, _, _, _ => (st, "BADLINE")
   | "unit", [s] =>
     let s := if s = "<empty>" then "" else s
     let r := match stepUnitFromString s with
